@@ -1,11 +1,9 @@
 """Resolver interface and implementations for files, OSTree, and directory
 artifacts."""
 
-import locale
 import logging
 import os
 from abc import ABCMeta, abstractmethod
-from functools import cmp_to_key
 from itertools import combinations
 from os.path import exists, isdir, isfile, join, normpath
 
@@ -348,8 +346,9 @@ class DirectoryResolver(Resolver):
         text_repr = ""
         keys = list(file_hashes.keys())
         if keys:
-            locale.setlocale(locale.LC_ALL, "C")
-            keys.sort(key=cmp_to_key(locale.strcoll))
+            # Sort by code point (what strcoll does in the "C" locale) without
+            # changing the locale of the calling process
+            keys.sort()
 
             text_repr = "\n".join(
                 [f"{file_hashes[k][_HASH_ALGORITHM]}  {k}" for k in keys]
